@@ -18,6 +18,7 @@ RULE = (
     "values (each universe member, None, '') x every answer class (each universe member, an unsupported well-formed date, 6 malformed results, "
     "JSON-RPC errors of each named code incl. -32602 with/without 'protocol version' text, silence); Hypothesis adds longer lists and arbitrary version strings; "
     "oracle = reference negotiation function; non-trivial = preferred not in list, or answer != proposed, or any failure outcome; distinct = distinct full case"
+    "; added in rounds 6-7 of the seeded changes: one caller-owned version list handed to consecutive handshakes (list unchanged, proposals follow its original order)"
 )
 ASSUMPTIONS = [
     "virtual clock; server answer scripted on the read stream through the library's own parser",
